@@ -109,12 +109,15 @@ func (p *TMultiUDPTransport) Write(buff []byte) (int, error) {
 	return n, nil
 }
 
-// Flush flushes the write buffer of the underlying transports
+// Flush flushes the write buffer of every underlying transport, also when one
+// of them fails, so that no transport is left holding a message that would be
+// glued in front of the next one. It returns the first error encountered.
 func (p *TMultiUDPTransport) Flush() error {
+	var firstErr error
 	for _, trans := range p.transports {
-		if err := trans.Flush(); err != nil {
-			return err
+		if err := trans.Flush(); err != nil && firstErr == nil {
+			firstErr = err
 		}
 	}
-	return nil
+	return firstErr
 }
